@@ -25,8 +25,8 @@ static void convert(const unsigned char *s, size_t n, int t) {
 }
 /* two kitchen sinks that differ in every value: every construct with attributes, labels, notes, tables, metadata */
 static const char *SINK[2] = {
-	"Title: SA\nAuthor: One\nBase Header Level: 2\n\n{{TOC}}\n\n# Alpha [la]\n\n\"qa\" text[^a] [#ca] [?ga] [>aa] [Alpha][] ![ia](a.png width=10px height=3cm) `ca` $ma$ {++xa++} a--b <m@n.o>\n\n| ta | tb |\n|:--|--:|\n| 1 | 2 |\n[Cap A][ta]\n\nterm a\n: def a\n\n```c\ncode a\n```\n\n[^a]: note a\n[#ca]: Cite A\n[?ga]: gloss a\n[>aa]: Abbr A\n",
-	"Title: SB\nLanguage: fr\nHTML Header Level: 3\n\n# Beta\n\nBeta two\n--------\n\n'qb' words[^b][^c] [#cb][] [?gb] ![ib][rb] <x@y.z> ``cb`` \\\\(mb\\\\) {--xb--} c...d\n\n| u |\n|:-:|\n| 3 |\n\n> quote b\n\n1. one\n2. two\n\n[rb]: b.png height=20% width=44 \"Tb\"\n[^b]: note b\n[^c]: note c\n[#cb]: Cite B\n[?gb]: gloss b\n" };
+	"Title: SA\nAuthor: One\nBase Header Level: 2\n\n{{TOC}}\n\n# Alpha [la]\n\n\"qa\" text[^a] [#ca] [?ga] [>aa] [Alpha][] ![ia](a.png width=10px height=3cm) `ca` $ma$ {++xa++} a--b <m@n.o> `ra`{=latex} `rh`{=html}\n\n| ta | tb |\n|:--|--:|\n| 1 | 2 |\n[Cap A][ta]\n\nterm a\n: def a\n\n```c\ncode a\n```\n\n[^a]: note a\n[#ca]: Cite A\n[?ga]: gloss a\n[>aa]: Abbr A\n",
+	"Title: SB\nLanguage: fr\nHTML Header Level: 3\n\n# Beta\n\nBeta two\n--------\n\n'qb' words[^b][^c] [#cb][] [?gb] ![ib][rb] <x@y.z> ``cb`` \\\\(mb\\\\) {--xb--} c...d `rb`{=epub|html} `rc`{=odt|latex}\n\n| u |\n|:-:|\n| 3 |\n\n> quote b\n\n1. one\n2. two\n\n[rb]: b.png height=20% width=44 \"Tb\"\n[^b]: note b\n[^c]: note c\n[#cb]: Cite B\n[?gb]: gloss b\n" };
 static void *body(void *arg) {
 	int t = (int)(intptr_t)arg; pthread_barrier_wait(&bar);
 	for (int r = 0; r < 12; r++) convert((const unsigned char *)SINK[(t + r) & 1], strlen(SINK[(t + r) & 1]), t);
